@@ -29,6 +29,11 @@ EFFECT_FIELDS = {
     ("nomt::Shared", "last_commit_marker"): "Shared.last_commit_marker=",
     ("nomt::rollback::InMemory", "pending_truncate"): "InMemory.pending_truncate=",
 }
+# a mutable borrow of (a sub-place of) one of these fields is an effect as well: the methods that used to wrap the mutation
+# (`InMemory::pop_recent` = `self.log.pop_back()`) may be folded into their callers
+MUT_FIELDS = {
+    ("nomt::rollback::InMemory", "log"): "InMemory.log&mut",
+}
 ROLLBACK_EXTRA = {
     "nomt::Nomt::<T>::begin_session": "Nomt::begin_session",
     "nomt::Nomt::begin_session": "Nomt::begin_session",
@@ -86,6 +91,13 @@ def find_effects(body, extra_calls=None, facts=None):
         if body.is_cleanup(b):
             continue
         for i, s in enumerate(body.stmts(b)):
+            if s["k"] == "assign" and s["rv"]["k"] == "ref" and s["rv"].get("mut") and s["rv"]["pl"].get("p"):
+                p = s["rv"]["pl"]["p"]
+                o = s["rv"]["pl"].get("o") or []
+                for j, e in enumerate(p):
+                    if e.startswith(".") and j < len(o) and (o[j], e[1:]) in MUT_FIELDS:
+                        out.append((MUT_FIELDS[(o[j], e[1:])], b, i, s.get("ln")))
+                        break
             if s["k"] == "assign" and s["pl"].get("p"):
                 # any assignment into (a sub-place of) a protected field
                 p = s["pl"]["p"]
@@ -349,6 +361,11 @@ def guards_via_helper(body, facts, gname):
         for (sw_h, desc, site) in inner:
             okr = set(H.ok_returns())
             refusing = [s_ for s_ in set(H.succ(sw_h)) if not (H.reachable([s_], H.ok_removed()) & okr)]
+            if H.local_ty(0).startswith("core::option::Option<"):
+                # an Option-returning helper refuses by returning None: the edge from which no `Some(..)` is produced
+                somes = {bb for bb in range(H.n) for s_ in H.stmts(bb) if s_["k"] == "assign" and not s_["pl"].get("p") and s_["pl"]["l"] == 0 and s_["rv"]["k"] == "agg" and s_["rv"].get("variant") == "Some"}
+                if somes:
+                    refusing = [s_ for s_ in set(H.succ(sw_h)) if not (H.reachable([s_]) & somes)]
             if not refusing:
                 continue
             for sw in switches_on_call(body, b):
